@@ -28,6 +28,19 @@ CLAIMED = {
                      "hash congruence are lemmas.",
                 note=TRUST + " Subtraction is real subtraction (A1); hash(tuple) is an uninterpreted function of the element sequence.",
                 tech="deductive verification: loop invariant + postcondition over symbolic-length vectors (pyvc/z3)"),
+    "C18": dict(cat="proof", ref="5/C18",
+                text="Personal-best update, velocity clamp (speed_constriction and both update_velocity variants), the three "
+                     "update_position variants and the three select_leader variants are verified for swarms of any size and dimension: "
+                     "postconditions state the exact new position/velocity per coordinate, the clamp bound and the personal-best rule.",
+                note=TRUST + " Particles of one batch must have pairwise distinct feature dicts / vector / velocity lists (PSOGA's two "
+                     "feature-sharing offspring are outside this precondition). update_global_best is covered as far as the evidence lists.",
+                tech="deductive verification: nested-loop invariants with heap frames over the real swarm code (pyvc/z3)"),
+    "C19": dict(cat="proof", ref="5/C19",
+                text="SurrogateModelEval.evaluate, SurrogateModelPredict.evaluate / evaluate_individual and add_data are verified against "
+                     "a ghost call log of the objective: exactly one counter moves per request, predictions only when trained and the "
+                     "hook answers, otherwise exactly one true evaluation returned unchanged, appended once, retrained exactly when due.",
+                note=TRUST + " Objective, predict hook and train() are assumed contracts (user / subclass code).",
+                tech="deductive verification: postconditions over ghost call-log state, all paths incl. exceptional exits (pyvc/z3)"),
 }
 NA = {
     "C07": "quantifies over thread interleavings; the contract verifier has sequential semantics only and no installed tool gives "
